@@ -260,6 +260,7 @@ def include(rep, env, tier, module_name, rule_prefixes, as_rule, why):
     mod = importlib.import_module("rules." + module_name)
     sub = Report(rep.pid)
     env.including = True
+    env.include_rules = tuple(rule_prefixes)     # a module may skip expensive rule families nobody asked for
     try:
         mod.check(env, sub, tier)
     except Exception as e:  # fail closed
@@ -267,6 +268,7 @@ def include(rep, env, tier, module_name, rule_prefixes, as_rule, why):
         return
     finally:
         env.including = False
+        env.include_rules = None
     n = 0
     for rule, key, ok, msg, site in sub.log:
         if rule in rule_prefixes:
